@@ -59,17 +59,21 @@ for _pid, _text, _also in [
             "(corollary of clone_exact for the arbitrary bytes a failed run leaves); fault injection at every write in the "
             "correspondence suite.", []),
     ("C06", "Theorem fetch_exact: the chunks requested from the archive are exactly those not found in the prior output or "
-            "seeds, in archive order; compared with the implementation's fetch list.", []),
+            "seeds, in archive order; C06_fetch_exact_bytes: over raw bytes (old output and seeds scanned with the archive's "
+            "chunker) the fetched descriptors are exactly those whose checksum is the truncated hash of no scanned chunk, each "
+            "once; compared with the implementation's fetch list and, for the binary, the Range requests it sends.", []),
     ("C13", "Theorem write_trace_spec: every write is one source chunk at one of its offsets, each offset once, never at an "
-            "in-place occurrence, nothing beyond the source length; full write traces compared with the implementation.", []),
+            "in-place occurrence, nothing beyond the source length; C13_write_economy_bytes: the same over raw bytes for the "
+            "whole command (scan of the old output included); full write traces compared with the library and the write "
+            "system calls of the bita binary (strace) with the model's write list.", []),
 ]:
     PROPS[_pid] = {
-        "theorems": {"C02": ["C02_clone_with_seeds", "C02_seeds_irrelevant", "C02_clone_bytes_any_seeds", "C02_clone_bytes_any_archive",
+        "theorems": {"C02": ["C02_clone_with_seeds", "C02_seeds_irrelevant", "C02_clone_bytes_any_seeds", "C02_clone_bytes_any_archive", "C02_clone_phases_in_model_order",
                              "C02_hash_keyed_index_refines_add",
                              "C02_hash_keyed_index_refines_remove", "C02_hash_keyed_index_refines_contains",
                              "C02_lookup_truncates_consistently"],
                      "C03": ["C03_planner_executor_correct", "C03_inplace_exact", "C03_inplace_bytes_exact",
-                             "C03_old_output_irrelevant_bytes", "C03_explicit_stack_planner_is_recursive_planner"],
+                             "C03_old_output_irrelevant_bytes", "C03_clone_phases_in_model_order", "C03_explicit_stack_planner_is_recursive_planner"],
                      "C05": ["C05_failed_write_not_ok", "C05_rerun_completes", "C05_output_file_reports_failed_write",
                              "C05_unflushed_would_lose_last_error"],
                      "C06": ["C06_fetch_exact", "C06_archive_fetch_exact", "C06_fetch_exact_bytes"],
@@ -242,9 +246,12 @@ PROPS["C17"] = {
             "with the model on all of them",
     "assumes": ["the harness' independent encoder follows the documented format"],
     "trusted_base": [],
-    "level_text": "Theorems (Coq): the decoder model ignores unknown fields anywhere between top-level fields and decodes every "
-                  "canonical encoding; acceptance/reporting and the clone of any archive whose index describes a source are covered "
-                  "by C15/C04/C02 theorems (archive-level clone theorem when present in Properties/C17.v).",
+    "level_text": "Theorems (Coq): C17_free_encoding_decodes -- every encoding in the declarative protobuf grammar free_dict (any "
+                  "field order at both levels, explicit defaults, repeated scalars, split sub-messages, packed/unpacked/mixed "
+                  "rebuild order, metadata in any order, unknown fields anywhere) decodes to the dictionary; "
+                  "C17_wire_encoding_decodes adds non-minimal varints; C17_conforming_archive_cloned -- any accepted archive "
+                  "whose index describes a source (chunks stored anywhere, any order, gaps, raw or compressed) is cloned to "
+                  "it. The decoder and reader models are compared with prost / Archive::try_init on an independent encoder's output.",
     "level_note": _ARCH_NOTE,
 }
 
@@ -281,7 +288,7 @@ _CHUNK = ["rolling", "chunker"]
 _ARCH = ["header", "proto", "levels"]
 SECTIONS_OF = {
     "C01": _CHUNK + _ARCH + ["versions", "pipeline", "compresssteps"],
-    "C02": [], "C03": [], "C13": [],
+    "C02": ["clonesteps"], "C03": ["clonesteps"], "C13": [],
     "C05": ["clonesteps"], "C06": ["clonesteps"],
     "C04": _ARCH, "C07": [], "C08": [],
     "C09": _CHUNK, "C10": _CHUNK,
